@@ -704,6 +704,12 @@ func (rl *Shell) insertAutosuggestPartial(emacs bool) {
 			forward = suggested.Len() - cpos - 1
 		}
 
+		// The word motions count bytes: with multibyte characters
+		// before the cursor they may find nothing forward of it.
+		if forward <= 0 {
+			return
+		}
+
 		rl.line.Insert(cpos+1, suggested[cpos+1:cpos+forward+1]...)
 	}
 }
